@@ -122,6 +122,13 @@ def wc_signature(rec, verdict, step=None):
             if skipped_before and pre["fs"][n]["k"] != "none" and pre["tree"][n]["k"] == "absent" \
                     and pre["disk"][n]["k"] in ("file", "symlink") and post["tree"][n]["k"] != "absent":
                 return "SnapshotOK:stale-file-state-tracks-ignored-path"
+        # F8: a tracked path that does not exist in the workspace (a directory on the way is a
+        # symlink to the outside sentinel) and is nevertheless recorded with a content
+        for n, p in enumerate(PATHS):
+            if pre["fs"][n]["k"] != "none" and pre["disk"][n]["k"] == "absent" and post["tree"][n]["k"] != "absent" \
+                    and any(pre["disk"][PATHS.index(p[:k])]["k"] == "symlink"
+                            and pre["disk"][PATHS.index(p[:k])]["t"] in ("out", "out/x") for k in range(1, len(p))):
+                return "SnapshotOK:tracked-path-read-through-symlinked-directory"
         return verdict
     if verdict == "Error:Snapshot":
         # F7: a tracked path below something that is no longer a directory (ENOTDIR in
@@ -309,7 +316,8 @@ def run_wc(ctx, prop, mc_cfgs, neg_cfgs, gen_cfgs, n_random, focus, script_len=1
         if prop in owners(r, verdict, step):
             ctx.violation(wc_signature(r, verdict, step), verdict, r, detail={"step": at})
         else:
-            other[verdict] = other.get(verdict, 0) + 1
+            k = wc_signature(r, verdict, step)
+            other[k] = other.get(k, 0) + 1
     ctx.cov["verdicts_owned_by_other_properties"] = other
     ctx.cov["rule"] = ("records = one script (TLC-generated behaviour or seeded random script) executed on a real "
                        "LocalWorkingCopy with the projected state judged after every action; non-trivial = "
